@@ -635,6 +635,16 @@ func (m *Machine) convert(it *Item, x *ssa.Convert) Value {
 			}
 			return tr
 		}
+		if t.Op == sym.OpFPOfS && !ti.unsigned && ti.bits == 64 {
+			// int -> float64 -> int round trip is exact for |x| <= 2^53 (checked as an obligation)
+			x := t.Args[0]
+			lim := c.BV(1 << 53)
+			out := c.Or(c.Cmp(sym.OpSlt, lim, x), c.Cmp(sym.OpSlt, x, c.Neg(lim)))
+			if !out.IsFalse() {
+				m.Oblige("wrap", "int->float64->int round trip beyond 2^53", c.And(it.G, out), m.posOf(it))
+			}
+			return x
+		}
 		if ti.unsigned {
 			return c.Un(sym.OpFPToU, sym.SBV, t)
 		}
